@@ -514,8 +514,15 @@ def fast_decisions(ck, P, R="SIB/fast~fast_back"):
 
     def windowish(x):
         return any(c.startswith("Window::") or "bytes_remaining" in c for c in x[1])
+    # compared without the names of working locals: one of the two loops may have its locals renamed or a block extracted
+    # (neutral patches A_C02_r3, A_C19_r2, F_F4_r3); what has to agree is the kind of comparison, the accessors it reads and its
+    # constants
+    def key(x):
+        # lossless conversions (`usize::from(dist)` for `dist as usize`) are not part of a decision
+        return (x[0], tuple(c for c in x[1] if c.split("::")[-1] not in ("from", "into", "try_from", "unwrap")), x[3], x[4])
+    kb = {key(x) for x in cb}
     want = sorted((x for x in ca if not windowish(x)), key=str)
-    missing = [x for x in want if x not in cb]
+    missing = [x for x in want if key(x) not in kb]
     ck.decide(not missing, R, "decisions", "every window-independent decision of the fast loop has a counterpart (%d)" % len(want),
               "inflate_fast_back no longer makes the decision(s) %s of inflate's fast loop: inflateBack decodes a match or a code class "
               "differently from inflate for the same bits" % [(m[0], m[1], m[2], m[3]) for m in missing][:3], where(b))
